@@ -117,17 +117,31 @@ def make_recorders(case, plan, log, ids, repl_objs):
             self._leave(node)
 
     ns = {"__init__": lambda self, vidx: setattr(self, "vidx", vidx)}
+    def hook(name, enter):
+        # pi: a node must be dispatched to the hook of ITS OWN kind, on the way in and on the way out
+        suffix = name.split("_", 1)[1]
+
+        def f(self, node):
+            if _snake(type(node).__name__) != suffix:
+                log.append(["wrong-hook:" + name, ids.get(id(node), -1), self.vidx])
+            return Mixin._enter(self, node) if enter else Mixin._leave(self, node)
+        return f
     for name in dir(V.DispatchingVisitor):
         if name.startswith("enter_"):
-            ns[name] = lambda self, node: Mixin._enter(self, node)
+            ns[name] = hook(name, True)
         elif name.startswith("leave_"):
-            ns[name] = lambda self, node: Mixin._leave(self, node)
+            ns[name] = hook(name, False)
     Disp = type("Disp", (V.DispatchingVisitor,), ns)
     m = case["m"]
     inst = {v: (Disp if (case["disp"] and v % 2 == 1) else Plain)(v) for v in set(case["vis"])}
     if m == 1:
         return inst[case["vis"][0]]
     return V.ChainedVisitor(*[inst[v] for v in case["vis"]])
+
+
+def _snake(name):
+    import re
+    return re.sub(r"(?<!^)(?=[A-Z])", "_", name).lower()
 
 
 def run_case(case, plan):
